@@ -15,6 +15,13 @@
 #include "gm2_mf.hpp"
 #include "gm2_slha_io.hpp"
 
+// the C interface is used from threads as well (it forwards to the same functions)
+#include "gm2calc/MSSMNoFV_onshell.h"
+#include "gm2calc/THDM.h"
+#include "gm2calc/gm2_1loop.h"
+#include "gm2calc/gm2_2loop.h"
+#include "gm2calc/gm2_uncertainty.h"
+
 #include <cmath>
 #include <cstring>
 #include <sstream>
@@ -147,6 +154,18 @@ const MF mssm_fns[] = {
    FA(lambda_mu_cha), FA(lambda_stop), FA(lambda_sbot), FA(lambda_stau),
    {"get_TB", [](const MSSMNoFV_onshell& m) -> double { return m.get_TB(); }},
    {"get_vev", [](const MSSMNoFV_onshell& m) -> double { return m.get_vev(); }},
+   {"c_api_amu", [](const MSSMNoFV_onshell& m) -> double {
+      const ::MSSMNoFV_onshell* h = reinterpret_cast<const ::MSSMNoFV_onshell*>(&m);
+      return gm2calc_mssmnofv_calculate_amu_1loop(h) + 2 * gm2calc_mssmnofv_calculate_amu_2loop(h) + 3 * gm2calc_mssmnofv_calculate_uncertainty_amu_2loop(h) +
+             5 * gm2calc_mssmnofv_calculate_amu_1loop_non_tan_beta_resummed(h) + 7 * gm2calc_mssmnofv_amu2LaSferm(h) + 11 * gm2calc_mssmnofv_get_TB(h); }},
+   {"c_api_strings", [](const MSSMNoFV_onshell& m) -> double {
+      ::MSSMNoFV_onshell* h = reinterpret_cast<::MSSMNoFV_onshell*>(const_cast<MSSMNoFV_onshell*>(&m)); // the C string getters take a non-const handle but only read
+      char a[96], b[96];
+      gm2calc_mssmnofv_get_problems(h, a, sizeof a); gm2calc_mssmnofv_get_warnings(h, b, sizeof b);
+      double r = gm2calc_mssmnofv_have_problem(h) + 2.0 * gm2calc_mssmnofv_have_warning(h);
+      for (const char* p = a; *p; ++p) r = r * 1.0000001 + (unsigned char)*p;
+      for (const char* p = b; *p; ++p) r = r * 1.0000001 + (unsigned char)*p;
+      return r; }},
    {"have_warning", [](const MSSMNoFV_onshell& m) -> double { return m.get_problems().have_warning() + 2.0 * m.get_problems().have_problem() + 4.0 * m.get_problems().get_warnings().size() + 1024.0 * m.get_problems().get_problems().size(); }},
 };
 #undef F
@@ -159,6 +178,10 @@ const TF thdm_fns[] = {
    {"calculate_uncertainty_amu_0loop_amu1L_amu2L", [](const THDM& m) -> double { return gm2calc::calculate_uncertainty_amu_0loop(m, 1e-11, 2e-11); }},
    {"calculate_uncertainty_amu_1loop_amu1L_amu2L", [](const THDM& m) -> double { return gm2calc::calculate_uncertainty_amu_1loop(m, 1e-11, 2e-11); }},
    {"calculate_uncertainty_amu_2loop_amu1L_amu2L", [](const THDM& m) -> double { return gm2calc::calculate_uncertainty_amu_2loop(m, 1e-11, 2e-11); }},
+   {"c_api_amu", [](const THDM& m) -> double {
+      const ::gm2calc_THDM* h = reinterpret_cast<const ::gm2calc_THDM*>(&m);
+      return gm2calc_thdm_calculate_amu_1loop(h) + 2 * gm2calc_thdm_calculate_amu_2loop(h) + 3 * gm2calc_thdm_calculate_amu_2loop_fermionic(h) +
+             5 * gm2calc_thdm_calculate_amu_2loop_bosonic(h) + 7 * gm2calc_thdm_calculate_uncertainty_amu_2loop(h); }},
    {"yukawas", [](const THDM& m) -> double { return fold(m.get_yuh()) + fold(m.get_ydH()) + fold(m.get_ylA()) + fold(m.get_yuHp()) + fold(m.get_ylHp()); }},
    {"zetas", [](const THDM& m) -> double { return m.get_zeta_u() + 2 * m.get_zeta_d() + 3 * m.get_zeta_l(); }},
    {"spectrum", [](const THDM& m) -> double { return m.get_Mhh(0) + 2 * m.get_Mhh(1) + 3 * m.get_MAh(1) + 4 * m.get_MHm(1) + m.get_alpha_h() + m.get_beta() + m.get_eta() + m.get_LambdaFive() + m.get_LambdaSixSeven(); }},
